@@ -385,8 +385,9 @@ struct RegHarness : Harness {
             int64_t d = r.range(-2, 2);
             return (b + (uint64_t)d) & m;
         }
-        switch (r.below(8)) {
+        switch (r.below(10)) {
         case 0: return 0; case 1: return m; case 2: return m >> 1; case 3: return (m >> 1) + 1; case 4: return 1; case 5: return r.below(16);
+        case 6: case 7: { unsigned k = (unsigned)r.below(16 * wsize(type)); uint64_t b = 1ull << k; int64_t d = r.range(-2, 2); return (r.chance(1, 2) ? b + (uint64_t)d : ~b + (uint64_t)d) & m; }   // around a power of two (or its complement): every bit position is a boundary for something
         default: return r.next() & m;
         }
     }
